@@ -618,7 +618,14 @@ fn stale_sender_crossing(sim: &mut Sim, rep: &mut Report, c01: usize, amt1: u64,
 	};
 	tally(sim, &mut sent1, &mut failed1);
 	sim.dispatch(rep);
-	sim.w.connect(0, 1);
+	// in two of three runs the recipient is not heard of again (so it is the payer's commitment that confirms, and
+	// nothing on the chain shows the preimage); otherwise the peers reconnect and both commitments race
+	if order != 0 {
+		sim.w.chans[c01].fault = Some("recipient gone after the payer's stale restart".into());
+		rep.count("c03_p4_crossing_scenarios_recipient_gone_after_the_restart");
+	} else {
+		sim.w.connect(0, 1);
+	}
 	turn(sim, true);
 	tally(sim, &mut sent1, &mut failed1);
 	sim.dispatch(rep);
